@@ -170,6 +170,36 @@ def cadence_case(r, bw=None, dt=None, secs=None):
     return ops
 
 
+def rttstep_case(r, d1=None, d2=None):
+    """C11, lasting change of the round-trip time: an ideal link whose latency is one round (every frame emitted in a
+    round is handled by the peer in the next one). After a phase of short rounds the rounds become 20 to 60 times
+    longer and stay so for more than a minute of virtual time, while the application keeps submitting one Reliable
+    packet per round. No credit override: rate, credit and timers are the implementation's own."""
+    d1 = d1 or r.choice([5, 10, 10, 20])
+    d2 = d2 or r.choice([300, 400, 400, 600])
+    c = pick_cfg(r)
+    c["W"] = 256
+    c["FW"] = 256
+    c["alloc"] = [10000000, 10000000]
+    c["bw"] = r.choice([1000000, 2000000, U32 - 1])
+    c["ka"] = "-"
+    ops = ["seed %d" % r.randrange(U32)] + hcnew_lines(c)
+    now = 0
+    k = 0
+    def rnd(D, send):
+        nonlocal now, k
+        now += D
+        if send:
+            ops.append("send 0 %d 3 1000 %d" % (k % 2, k))
+            k += 1
+        ops.extend(["step 0 %d" % now, "flush 0", "step 1 %d" % now, "flush 1", "relay 0 1 0 0 0 1", "relay 1 0 0 0 0 1", "recv 1"])
+    for i in range(r.choice([60, 100])):
+        rnd(d1, True)
+    for i in range(int(70000 / d2)):
+        rnd(d2, k < 245)
+    return ops
+
+
 def chanmix_case(r):
     """Two channels, Unreliable / Persistent / Reliable packets interleaved, heavy frame loss, a receive() after
     every relay: the receive window stalls behind a lost Reliable packet of one channel while the other channel
